@@ -118,6 +118,8 @@ func init() {
 		vTSrc(extra)
 	case "c07":
 		vC07(seed, count, extra)
+	case "c03":
+		vC03(seed, count, extra)
 	case "transpile-stdin":
 		// one hex-encoded source per line -> "ok <hex go>" | "err <hex msg>"
 		sc := bufio.NewScanner(os.Stdin)
